@@ -77,6 +77,8 @@ class Ctx:
         try:
             if self.tracer is not None:
                 self.tracer.enabled = False
+                if self.tracer.record and self.tracer.record.get("compact"):
+                    self.tracer.dump_compact(os.path.join(os.path.dirname(self.nb.path), f"trace_i{self.inc}.json"))
             self.nb.note("exit", code=code, probes=self.probes, steps=(self.tracer.count if self.tracer else 0),
                          fs_events=(self.disk.n if self.disk else 0), seam_calls=SEAM.calls,
                          seam_points=SEAM.points, api_points=self.api_points,
@@ -180,9 +182,24 @@ def install_checkpoint_seam(ctx, disk, resume_name):
                             finalised=bool(data.finalised), save_existing=bool(save_existing),
                             fs_event=disk.n)
             disk.current_ckpt = o
-        out = orig(data, filename, module, save_existing=save_existing)
+        prev_phase = ctx.phase
         if is_sampler:
-            ctx.nb.note("ckpt_done", ordinal=ctx.ckpt_ordinal, fs_event=disk.n)
+            ctx.phase = prev_phase + "/ckpt"
+        try:
+            out = orig(data, filename, module, save_existing=save_existing)
+        finally:
+            ctx.phase = prev_phase
+        if is_sampler:
+            sha = None
+            try:
+                import hashlib
+                from .disk import _real_open
+
+                with _real_open(filename, "rb") as fh:
+                    sha = hashlib.sha1(fh.read()).hexdigest()
+            except OSError:
+                pass
+            ctx.nb.note("ckpt_done", ordinal=ctx.ckpt_ordinal, fs_event=disk.n, sha=sha)
             disk.current_ckpt = None
         return out
 
@@ -242,6 +259,15 @@ def install_loop_notes(ctx):
         cls.nested_sampling_loop = nested_sampling_loop
 
 
+def default_like_callback(sampler):
+    """A user checkpoint callback that does what nessai's default does."""
+    import pickle
+
+    import nessai.utils
+
+    nessai.utils.safe_file_dump(sampler, sampler.resume_file, pickle, save_existing=True)
+
+
 def materialise_kwargs(ctx, scn, model):
     kwargs = dict(scn.get("kwargs", {}))
     pool = scn.get("pool")
@@ -264,7 +290,7 @@ def materialise_kwargs(ctx, scn, model):
             kwargs["pool"] = sp
     if scn.get("callback"):
         # non-serialisable value nessai accepts (C19 config.json clause)
-        pass
+        kwargs["checkpoint_callback"] = default_like_callback
     return kwargs
 
 
@@ -329,7 +355,17 @@ def run(world, inc, lab_dir, disk_dir, t0):
         kwargs = materialise_kwargs(ctx, scn, model)
         run_kwargs = dict(scn.get("run_kwargs", {}))
         run_kwargs.setdefault("plot", False)
-        nb.note("start", seed=seed, plan=plan, pid_independent=True)
+        rsha = None
+        if world.get("note_resume_sha"):
+            import hashlib
+            from .disk import _real_open
+
+            try:
+                with _real_open(os.path.join(scn.get("output", "out"), resume_name), "rb") as fh:
+                    rsha = hashlib.sha1(fh.read()).hexdigest()
+            except OSError:
+                rsha = None
+        nb.note("start", seed=seed, plan=plan, pid_independent=True, resume_sha=rsha)
         from nessai.flowsampler import FlowSampler
 
         tracer.start()
@@ -358,6 +394,8 @@ def run(world, inc, lab_dir, disk_dir, t0):
             ctx.finish(EXIT_OK)
         ctx.phase = "loop"
         SEAM.sampling_started = False
+        ctx.resumed_finished = bool(ctx.resumed and fs.ns.finalised)
+        seam0, api0 = SEAM.points, ctx.api_points
         tracer.enabled = True
         fs.run(**run_kwargs)
         tracer.enabled = False
@@ -365,6 +403,10 @@ def run(world, inc, lab_dir, disk_dir, t0):
         nb.note("run_returned", iteration=int(fs.ns.iteration))
         from . import postrun
 
+        if ctx.resumed_finished:
+            ctx.probe("resume_after_finish")
+            if SEAM.points != seam0 or ctx.api_points != api0:
+                ctx.violation("C15-resume-evaluations", {"raw": SEAM.points - seam0, "api": ctx.api_points - api0})
         postrun.after_run(ctx, fs, world)
         ctx.finish(EXIT_OK)
     except SystemExit as e:
